@@ -19,7 +19,14 @@ handed-over values) holds a FRESH heap object across suspensions while other fib
 run in the debug build (collection at every allocation) and in release with gc=always, freed memory quarantined;
 (e) module family (harness `mods`): fibers defined in modules la/lb/main (globals `tag`/`cnt` of the same names in all),
 nested 1-3 deep across modules, driven from main's top level, main's functions, a lambda and a library function; the
-caller's own globals are read and written right after every call returns (yield, normal end, rejected call)."""
+caller's own globals are read and written right after every call returns (yield, normal end, rejected call);
+(f) round 7, back-to-back switches: EVERY switch sequence once more with NOTHING between two switches of a fiber (no print,
+no has_finished, no function call: whatever `call_native` or a helper frame would reset stays as the switch left it, e.g. the
+per-fiber record of the native arity, which is stale after a call answered by the callee RETURNING - YV.FiberArityProofs),
+every switch with / without a value, random per-gap decorations; random programs of style `bare`; ALL mini-language programs
+also run in the release build with gc=always + a collection after the run + freed memory quarantined.
+The model is evaluated with the shape constant passed as a literal (not through YVGen.FiberArms): when the translator no
+longer recognises a switch function the dynamic part still runs and produces the failing input."""
 import json
 import os
 
@@ -29,7 +36,8 @@ from yvlib import hx, log
 LEVEL = "proof"
 TRUSTED = [
     "Coq 8.16.1 kernel (coqc), vm_compute; no native_compute, no extraction",
-    "translator/translate_c09.py (token shape of load_fiber / unload_fiber / return_impl / fiber_call / fiber_yield)",
+    "translator/translate_c09.py (token shape of load_fiber / unload_fiber / return_impl / fiber_call / fiber_yield; the "
+    "functions that read ObjFiber.native_arity, the bracket set/clear of call_native)",
     "hook H4 (vm.rs verif_trace, feature verif_hooks), the harness `yv` (Rust), tools/*.py (Python)",
     "YV.FiberLang.render (mini-AST -> yarel source) and the wire decoder prog_of_wire are definitions, not verified",
     "modelled, not verified: the compiler's slot layout of a body (slot 0 closure, parameter, three locals) and of the "
@@ -40,6 +48,8 @@ ASSUMPTIONS = [
     "checked dynamically (fiber_ptr_ok, dev trace == release trace), proved in C10",
     "no yarel value denotes the root fiber (vs_call excludes fiber 0)",
     "`finally` is outside the Coq mini-language; its family uses hand-derived expectations",
+    "ObjFiber.native_arity is not state of M: sound while only the natives' argument accessors read it (regenerated side "
+    "condition C09_side_arity_scope; YV.FiberArity models the record: fresh inside a native, stale outside)",
 ]
 
 FINDINGS_PATH = os.path.join(yvlib.VERIF, "notes", "C09-findings.json")
@@ -235,19 +245,22 @@ def gen_expr(rng, vals, param_ok=True):
     return ("nil",)
 
 
-def gen_program(rng, nf=None, steps=None):
+def gen_program(rng, nf=None, steps=None, style=None):
     nf = nf or rng.choice([1, 2, 2, 3, 3, 4])
     steps = steps or rng.randint(6, 40)
     params = {k: rng.random() < 0.5 for k in range(1, nf + 1)}
     params[0] = False
     sim = Sim(nf, params)
     vals = Vals()
-    style = rng.choice(["busy", "busy", "errors", "captures", "deep"])
+    style = style or rng.choice(["busy", "busy", "errors", "captures", "deep", "bare"])
     for _ in range(steps):
         if sim.ended:
             break
         me = sim.cur
         r = rng.random()
+        if style == "bare" and r < 0.49 and rng.random() < (0.9 if me != 0 else 0.5):
+            # round 7: switches follow one another back to back (no print / has_finished / closure call in between)
+            r = 0.49 + rng.random() * 0.51
         dst = rng.choice([None, 0, 1, 2, 0, 1])
         nested = rng.random() < 0.3
         if r < 0.18:
@@ -406,6 +419,154 @@ def enum_interleavings(nf, max_switch, variant):
     return res
 
 
+def switch_sequences(nf, max_switch):
+    """EVERY sequence of at most `max_switch` switch points (C k = call of a new/suspended fiber | Y = yield | R = return of
+    the running fiber) over nf fibers that the status-only simulation accepts"""
+    out = []
+
+    def status(seq):
+        sim = Sim(nf, {k: False for k in range(nf + 1)})
+        for op in seq:
+            if op[0] == "C":
+                sim.do_call(None, op[1], None, False)
+            elif op[0] == "Y":
+                sim.do_yield(None, None, False)
+            else:
+                sim.do_return(None)
+        return sim
+
+    def rec(seq):
+        if seq:
+            out.append(list(seq))
+        if len(seq) >= max_switch:
+            return
+        sim = status(seq)
+        for k in range(1, nf + 1):
+            if sim.status[k] in ("new", "suspended"):
+                rec(seq + [("C", k)])
+        if sim.cur != 0:
+            rec(seq + [("Y",)])
+            rec(seq + [("R",)])
+    rec([])
+    return out
+
+
+def build_bare(nf, seq, params, witharg, nested, deco, end_dump):
+    """the program of ONE switch sequence with the work BETWEEN two switches of a fiber chosen per gap (round 7):
+    deco[i] = what the fiber that runs after switch i does before it switches again
+       0 nothing at all: the next call/yield/return follows the previous one back to back (no native call, no function
+         call in between - state that `call_native` or a helper's frame would reset stays as the switch left it)
+       1 print(value received)    2 print(value received) + has_finished() of every fiber   3 a local assignment only
+    witharg[i] / nested[i]: switch i hands a value over / goes through a helper frame (hc1/hy1).  Received values are kept in
+    the three locals in rotation and handed on by later switches (odd i) or replaced by fresh constants (even i), so that
+    the main script sees them even when no fiber prints; end_dump: main prints its locals and every has_finished() last."""
+    params = dict(params)
+    params[0] = False
+    sim = Sim(nf, params)
+    c = [300]
+
+    def val():
+        c[0] += 1
+        return ("const", c[0])
+    last = {k: None for k in range(nf + 1)}      # expression that holds the value received last
+    pend = {k: None for k in range(nf + 1)}      # destination chosen when the fiber switched out
+    nd = {k: 0 for k in range(nf + 1)}
+    started = set()
+
+    def dst_for(me):
+        d = nd[me] % NV
+        nd[me] += 1
+        pend[me] = d
+        return d
+
+    def arg_for(me, i):
+        if not witharg[i]:
+            return None
+        if last[me] is not None and i % 2 == 1:
+            return last[me]
+        return val()
+
+    def arrive(i):
+        me = sim.cur
+        if me not in started and me != 0:
+            started.add(me)
+            last[me] = ("param",) if params[me] else None
+        elif pend[me] is not None:
+            last[me] = ("var", pend[me])
+        d = deco[i]
+        if d in (1, 2):
+            sim.emit(("print", last[me] if last[me] is not None else ("nil",)))
+        if d == 2:
+            for k in range(1, nf + 1):
+                sim.emit(("hasfin", k))
+        if d == 3:
+            sim.emit(("set", (nd[me] + 1) % NV, val()))
+    for i, op in enumerate(seq):
+        me = sim.cur
+        if op[0] == "C":
+            k = op[1]
+            if sim.status[k] == "new":
+                arg = (arg_for(me, i) or val()) if params[k] else None
+            else:
+                arg = arg_for(me, i)
+            sim.do_call(dst_for(me), k, arg, nested[i])
+        elif op[0] == "Y":
+            sim.do_yield(dst_for(me), arg_for(me, i), nested[i])
+        else:
+            arg = arg_for(me, i)
+            sim.do_return(arg, explicit=(arg is not None or i % 2 == 0))
+        arrive(i)
+    p = sim.finish()
+    while sim.cur != 0 and not sim.ended:
+        sim.do_return(None, explicit=False)
+    if end_dump:
+        for x in range(NV):
+            p["main"].append(("print", ("var", x)))
+        for k in range(1, nf + 1):
+            p["main"].append(("hasfin", k))
+    return p, sim.measures()
+
+
+def bare_family(rng, specs):
+    """round 7: for EVERY switch sequence (specs: [(nf, max_switch)]) four fixed decorations - fibers never do anything
+    between two switches; every switch hands a value over / none does; the main script prints what it receives at once /
+    only at the very end - plus `nrandom` random decorations (per gap 0-3, per switch argument / helper frame, per fiber
+    parameter); specs: [(nf, max_switch, all four fixed decorations?, nrandom)]; identical programs are kept once"""
+    res = []
+    seen = set()
+    for nf, ms, four, nrandom in specs:
+        for seq in switch_sequences(nf, ms):
+            n = len(seq)
+            # who runs after switch i (to decorate only the main script's gaps)
+            sim = Sim(nf, {k: False for k in range(nf + 1)})
+            runner = []
+            for op in seq:
+                if op[0] == "C":
+                    sim.do_call(None, op[1], None, False)
+                elif op[0] == "Y":
+                    sim.do_yield(None, None, False)
+                else:
+                    sim.do_return(None)
+                runner.append(sim.cur)
+            for args in (True, False):
+                for main_prints in ((True, False) if four else (True,)):
+                    deco = [(1 if (main_prints and r == 0) else 0) for r in runner]
+                    p, meas = build_bare(nf, seq, {k: args for k in range(1, nf + 1)}, [args] * n, [False] * n, deco, True)
+                    if wire(p) not in seen:
+                        seen.add(wire(p))
+                        res.append((p, meas, ("bare", nf, seq, args, main_prints)))
+            for _ in range(nrandom):
+                deco = [rng.choice([0, 0, 0, 1, 2, 3]) for _ in range(n)]
+                wa = [rng.random() < 0.6 for _ in range(n)]
+                ne = [rng.random() < 0.25 for _ in range(n)]
+                params = {k: rng.random() < 0.6 for k in range(1, nf + 1)}
+                p, meas = build_bare(nf, seq, params, wa, ne, deco, rng.random() < 0.8)
+                if wire(p) not in seen:
+                    seen.add(wire(p))
+                    res.append((p, meas, ("bare-random", nf, seq)))
+    return res
+
+
 def special_programs():
     """hand-written members of the mini-language aimed at the states the unit tests never build"""
     C = lambda z: ("const", z)
@@ -482,9 +643,15 @@ def moved(p):
 # evaluation
 
 
+# the shape of load_fiber's resumed branch as a Gallina literal (set by run() from the translator's manifest).  NOT read from
+# YVGen.FiberArms: when the translator fails closed on a re-shaped switch function that file does not compile, and exactly
+# then the dynamic part (whose oracle S does not depend on it) must keep running to produce the failing input (round 7).
+PN = ["true"]
+
+
 def coq_cases(progs, tag):
-    terms = ['run_case_w FiberArms.poke_nil_on_resume "%s"%%string' % wire(p) for p in progs]
-    vals = yvlib.coq_eval(["YVGen:FiberArms", "YV:FiberLang"], terms, shard_size=60, tag=tag,
+    terms = ['run_case_w %s "%s"%%string' % (PN[0], wire(p)) for p in progs]
+    vals = yvlib.coq_eval(["YV:FiberLang"], terms, shard_size=60, tag=tag,
                           preamble="Open Scope string_scope.")
     res = []
     for v in vals:
@@ -1115,7 +1282,9 @@ def to_tuples(p):
     return {"main": [t(a) for a in p["main"]], "fibers": [{"param": f["param"], "body": [t(a) for a in f["body"]]} for f in p["fibers"]]}
 
 
-def run(ctx):
+def run(ctx, directed=False):
+    """directed=True (used by search): only the directed mini-language families at their thorough size - the hand-written
+    programs, the back-to-back switch family and 600 random programs of style `bare` - with the Spec oracle in both builds"""
     quick = ctx.quick()
     rng = ctx.rng
     dbg = ctx.harness("debug")
@@ -1129,6 +1298,10 @@ def run(ctx):
     except Exception:
         arms = {}
     poke_nil = arms.get("load_fiber", {}).get("poke_nil_on_resume")
+    PN[0] = "false" if poke_nil is False else "true"
+    if poke_nil is None and not any("translator" in b for b in ctx.broken):
+        ctx.broken.append("the translator did not recognise the shape of the fiber switch functions (gen/FiberArms.v): "
+                          "the side conditions of props/C09.v cannot be decided; the dynamic comparison with the Spec still runs")
     if poke_nil is False:
         ctx.broken.append("load_fiber has the unrepaired shape (no nil poked for a fiber resumed without argument): "
                           "transfer_faithful does not apply")
@@ -1147,13 +1320,27 @@ def run(ctx):
             for f in sorted(os.listdir(cdir)):
                 with open(os.path.join(cdir, f)) as fh:
                     cases.append((to_tuples(json.load(fh)["prog"]), None, "corpus", None))
-        nrand = 500 if quick else 7000
+        nrand = 500 if quick else 6000
+        if directed:
+            nrand = 0
+            for _ in range(600):
+                p, meas = gen_program(rng, style="bare")
+                cases.append((p, meas, "random", None))
         for _ in range(nrand):
             p, meas = gen_program(rng)
             cases.append((p, meas, "random", None))
+        # round 7: every switch sequence with NOTHING between two switches of a fiber (and random per-gap decorations)
+        if quick and not directed:
+            bare = bare_family(rng, [(2, 5, True, 1), (3, 4, False, 0)])
+        else:
+            bare = bare_family(rng, [(2, 6, True, 1), (3, 5, True, 1)])
+        for p, meas, info in bare:
+            cases.append((p, meas, "bare", info))
         # exhaustive interleavings
         exh = []
-        if quick:
+        if directed:
+            pass
+        elif quick:
             exh += [(x, (2, 5, 0)) for x in enum_interleavings(2, 5, 0)]
         else:
             for v in range(2):
@@ -1165,7 +1352,7 @@ def run(ctx):
     # metamorphic partners
     base_n = len(cases)
     partners = {}
-    if not ctx.replay_only:
+    if not ctx.replay_only and not directed:
         cand = [i for i in range(base_n) if movable(cases[i][0])]
         rng.shuffle(cand)
         for i in cand[:(250 if quick else 3000)]:
@@ -1196,6 +1383,16 @@ def run(ctx):
     impl = {}
     for i, r in zip(idx, recs):
         impl[i] = impl_result(r)
+    # round 7: the same programs in the optimised build, a collection at every allocation and one after the run, freed
+    # memory quarantined (a stack top that a switch left below the frame base, a slot dropped twice: silent in release until
+    # the collector walks the fiber)
+    t0 = time.time()
+    REL_OPTS = "run gc=always,collect_end=1 "
+    recs_rel = run_robust(rel, [REL_OPTS + l[len("run - "):] for l in lines], quarantine=True, case_timeout_ms=5000)
+    log("[C09] %d programs run in the release build in %.1fs" % (len(lines), time.time() - t0))
+    impl_rel = {}
+    for i, r in zip(idx, recs_rel):
+        impl_rel[i] = impl_result(r) + (" [use of a reclaimed object]" if r.uaf else "")
 
     # --- impl == S, M == S
     viol = []
@@ -1215,7 +1412,7 @@ def run(ctx):
         if c["M"] != c["S"]:
             ctx.broken.append("M != S on a program (contradicts transfer_faithful; poke_nil_on_resume=%s): %s | S %s | M %s" % (
                 poke_nil, wire(progs[i])[:300], c["S"][:200], c["M"][:200]))
-        if impl[i] != c["S"]:
+        if impl[i] != c["S"] or impl_rel[i] != c["S"]:
             viol.append(i)
         else:
             # the error trace lists the frames of the RUNNING fiber only
@@ -1234,32 +1431,40 @@ def run(ctx):
                 ctx.broken.append("Spec is not invariant under moving the body into a fiber (transformation unsound?): " + wire(progs[i])[:300])
             elif impl[i] != impl[j] and i not in viol and j not in viol:
                 viol.append(j)
+    # the directed families first: their programs are the smallest
+    viol.sort(key=lambda i: (0 if cases[i][2] in ("special", "bare") else 1, prog_size(progs[i])))
 
     # --- violations: shrink the first, keep at most 5
-    def observe(p):
+    def observe(p, release):
         c = coq_cases([p], "C09shrink")[0]
         if c is None or not c["src"]:
             return None, None, None
+        if release:
+            r = yvlib.run_harness(rel, [REL_OPTS + hx(c["src"])], shards=1, quarantine=True, case_timeout_ms=5000)[0]
+            return impl_result(r) + (" [use of a reclaimed object]" if r.uaf else ""), c["S"], c["src"]
         r = yvlib.run_harness(dbg, ["run - " + hx(c["src"])], shards=1, case_timeout_ms=5000)[0]
         return impl_result(r), c["S"], c["src"]
     for n, i in enumerate(viol[:5]):
         p = progs[i]
-        a, b, src = impl[i], cq[i]["S"], cq[i]["src"]
+        release = impl[i] == cq[i]["S"] and cases[i][2] != "moved"       # only the optimised build differs
+        a, b, src = (impl_rel[i] if release else impl[i]), cq[i]["S"], cq[i]["src"]
         if n == 0 and cases[i][2] != "moved":
             budget = [36]
 
             def fails(q):
-                x, y, _ = observe(to_tuples(q))
+                x, y, _ = observe(to_tuples(q), release)
                 return x is not None and x != y
             small = to_tuples(shrink_prog(p, fails, budget))
-            a2, b2, src2 = observe(small)
+            a2, b2, src2 = observe(small, release)
             if a2 is not None and a2 != b2:
                 p, a, b, src = small, a2, b2, src2
         what = "a rendered fiber program prints/ends differently from the coroutine Spec"
+        if release:
+            what += " in the release build (gc=always, collection after the run, freed memory quarantined; the debug build agrees with the Spec)"
         if cases[i][2] == "moved":
             what = "a program prints differently when its whole body is moved into a fiber that is called once"
             b = impl.get(cases[i][3], b)
-        ctx.violation(what, input=src, expected=b, actual=a, prog=p, family=cases[i][2])
+        ctx.violation(what, input=src, expected=b, actual=a, prog=p, family=cases[i][2], build="release" if release else "debug")
     if len(viol) > 5:
         notes.append("%d further differing programs not listed" % (len(viol) - 5))
 
@@ -1267,7 +1472,7 @@ def run(ctx):
     tsel = [i for i in idx if cases[i][2] in ("special", "corpus", "replay")]
     rest = [i for i in idx if i not in set(tsel)]
     rng.shuffle(rest)
-    tsel += rest[:(250 if quick else 2500)]
+    tsel += rest[:(250 if (quick or directed) else 2500)]
     tl = ["trace - 200000 " + hx(cq[i]["src"]) for i in tsel]
     t0 = time.time()
     trd = run_robust(dbg, tl, case_timeout_ms=8000)
@@ -1308,7 +1513,7 @@ def run(ctx):
                       input="trace", expected="fiber_ptr_ok=1 everywhere", actual="%d records with 0" % ptr_bad)
 
     # --- the finally family
-    fin = finally_family() if not ctx.replay_only else []
+    fin = finally_family() if not ctx.replay_only and not directed else []
     fr = run_robust(dbg, ["run - " + hx(s) for s, _, _ in fin], case_timeout_ms=5000)
     fin_known = 0
     for (src, exp, known), r in zip(fin, fr):
@@ -1327,7 +1532,7 @@ def run(ctx):
     # --- family (d): fresh heap objects in every piece of per-fiber state across suspensions with allocation in between
     if ctx.replay_only and ctx.replay_only.get("heap"):
         hspecs = [ctx.replay_only["heap"]]
-    elif ctx.replay_only:
+    elif ctx.replay_only or directed:
         hspecs = []
     else:
         hspecs = [gen_heap_spec(rng, big=(i % 3 == 0)) for i in range(120 if quick else 1500)]
@@ -1365,7 +1570,7 @@ def run(ctx):
     # --- family (e): fibers across modules
     if ctx.replay_only and ctx.replay_only.get("mods"):
         mspecs = [ctx.replay_only["mods"]]
-    elif ctx.replay_only:
+    elif ctx.replay_only or directed:
         mspecs = []
     else:
         mspecs = [gen_mod_spec(rng) for _ in range(150 if quick else 2000)]
@@ -1398,7 +1603,11 @@ def run(ctx):
 
     sample_i = next((i for i in idx if cases[i][2] == "random" and cases[i][1] and nontrivial(cases[i][1])), idx[0] if idx else None)
     ctx.cov.update({
-        "evaluations": len(idx) + len(tsel) * 2 + len(fin) + 2 * len(hspecs) + 2 * len(mspecs),
+        "evaluations": 2 * len(idx) + len(tsel) * 2 + len(fin) + 2 * len(hspecs) + 2 * len(mspecs),
+        "release_runs_of_minilanguage_programs": len(idx),
+        "back_to_back_family": {"programs": fam_count.get("bare", 0),
+                                "bound": "EVERY switch sequence, nothing between two switches of a fiber: quick 2 fibers <= 5 (4 fixed + 1 random "
+                                         "decoration) and 3 fibers <= 4 (2 fixed); thorough / search 2 fibers <= 6 and 3 fibers <= 5 (4 fixed + 1 random)"},
         "module_family": {"programs": len(mspecs), "runs": 2 * len(mspecs), "differing": len(mbad)},
         "distinct_nontrivial": len(nontriv),
         "rule": "programs of the mini-language written along ONE explicit interleaving by a status-only simulation "
@@ -1429,6 +1638,12 @@ def search(ctx):
     old = ctx.tier
     ctx.tier = "thorough"
     try:
-        run(ctx)
+        # directed families first (a few minutes): hand-written programs, every switch sequence with every decoration of
+        # the gaps (2 fibers <= 6, 3 fibers <= 5 switch points), 600 random programs whose switches follow back to back
+        log("[C09] search: directed families")
+        run(ctx, directed=True)
+        if not [v for v in ctx.violations if not v.get("known_class")]:
+            log("[C09] search: all thorough generators")
+            run(ctx)
     finally:
         ctx.tier = old
